@@ -826,9 +826,9 @@ func (h *vccHarness) runSchedule(sc *vccSched) bool {
 	h.mu.Lock()
 	stillHeld := h.holdCh != nil
 	h.mu.Unlock()
-	if stillHeld { // the schedule ended (or was cut) with an add still held
-		h.releaseHold()
-		h.poll(func() bool { h.mu.Lock(); defer h.mu.Unlock(); return h.updates >= h.begun })
+	if stillHeld { // the schedule ended (or was cut) with an add still held: release it as the command would, i.e. wait
+		// for the held publication AND the removals of the sessions killed meanwhile before anything is read
+		h.exec(vccCmd{A: "AddRelease"}, len(sc.Cmds))
 	}
 	if bgStop != nil {
 		close(bgStop)
